@@ -149,7 +149,7 @@ def build_dep(r: dict):
         if r.get(key) is not None:
             kw[key] = _deepcopy_json(r[key])
     src = kw.get("source")
-    if isinstance(src, dict) and isinstance(src.get("subdir"), str) and src["subdir"].startswith("@"):
+    if isinstance(src, dict) and isinstance(src.get("subdir"), str) and src["subdir"].startswith(("@rel:", "@abs:")):
         # a directory of the installed package addressed without a package name: "@rel:<sub>" relative to the
         # current directory, "@abs:<sub>" absolute but not in canonical form
         import os
